@@ -82,5 +82,8 @@ def gen_C10():
                   r"max\(\s*INITIAL_WINDOW_LIMIT\s*,\s*(\d+)\s*\*\s*max_datagram_size\s+as\s+u32\s*\)\s*,?\s*\)", bbr)
     f.n("bbr_initial_window_packets", int(m.group(1)) if m else None, BBR)
     f.n("bbr_initial_window_floor_packets", int(m.group(2)) if m else None, BBR)
+    m = re.search(r"const\s+HEADROOM\s*:\s*Ratio<u64>\s*=\s*Ratio::new_raw\(\s*(\d+)\s*,\s*(\d+)\s*\)", bbr)
+    f.n("bbr_headroom_num", int(m.group(1)) if m else None, BBR)
+    f.n("bbr_headroom_den", int(m.group(2)) if m else None, BBR)
     f.const("max_burst_packets", RECOVERY, r"pub\s+const\s+MAX_BURST_PACKETS\s*:\s*u32\s*=\s*([^;]+);")
     return f
